@@ -32,7 +32,9 @@ class FileManager:
         for i, line in enumerate(zlines):
             if line.startswith(("- ", "o ", "~ ", "x ", "< ", "> ")):
                 in_note = True
-            if in_note and line.strip() == "":
+            # Only a truly empty line ends a block; an indented line that holds
+            # nothing but blanks is a continuation line of the note above it.
+            if in_note and line.rstrip("\r") == "":
                 in_note = False
                 start_idx = i
         end_idx = start_idx + 1
